@@ -525,9 +525,35 @@ class C11:
                  "is_default": default})
 
     # -- minimisation ------------------------------------------------------------
+    def _compact(self, sc):
+        """Drop specs, delimiter sets, trees and data no operation refers to (re-indexing)."""
+        ops = sc["ops"]
+        us = sorted({op["spec"] for op in ops})
+        ut = sorted({op["tree"] for op in ops if "tree" in op})
+        ud = sorted({op["data"] for op in ops if "data" in op})
+        udl = sorted({sc["specs"][i]["delims"] for i in us})
+        sm, tm, dm, lm = ({v: i for i, v in enumerate(x)} for x in (us, ut, ud, udl))
+        specs = [{**sc["specs"][i], "delims": lm[sc["specs"][i]["delims"]]} for i in us]
+
+        def fix(op):
+            op = dict(op, spec=sm[op["spec"]])
+            if "tree" in op:
+                op["tree"] = tm[op["tree"]]
+            if "data" in op:
+                op["data"] = dm[op["data"]]
+            return op
+        return {**sc, "specs": specs, "delim_sets": [sc["delim_sets"][i] for i in udl],
+                "trees": [sc["trees"][i] for i in ut] or sc["trees"][:1],
+                "datas": [sc["datas"][i] for i in ud] or sc["datas"][:1], "ops": [fix(op) for op in ops]}
+
     def shrink(self, sc):
         for cand in shrink_list(sc["ops"]):
             yield {**sc, "ops": cand}
+        if sc["ops"]:
+            comp = self._compact(sc)
+            if (len(comp["specs"]), len(comp["trees"]), len(comp["datas"]), len(comp["delim_sets"])) != \
+                    (len(sc["specs"]), len(sc["trees"]), len(sc["datas"]), len(sc["delim_sets"])):
+                yield comp
         used_t = sorted({op["tree"] for op in sc["ops"] if "tree" in op})
         for t in used_t:
             for sub in G.shrink_tree(sc["trees"][t]):
